@@ -52,7 +52,7 @@ def setup(root):
 def gen_case(rng, tier):
     cls = rng.choice(['LRI', 'LRU'])
     max_size = rng.choice([1, 1, 2, 2, 3, 3, 4, 5]) if rng.random() < 0.95 else 128
-    on_miss = rng.choice(['none', 'none', 'none', 'pure', 'pure', 'reent_set', 'reent_get'])
+    on_miss = rng.choice(['none', 'none', 'none', 'pure', 'pure', 'reent_set', 'reent_get', 'reent_same'])
     pool = rng.choice(KEY_POOLS)
     keys = pool[:rng.randint(2, 6)]
     nops = rng.randint(1, 40) if rng.random() < 0.8 else rng.randint(1, 8)
@@ -65,9 +65,16 @@ def gen_ops(rng, keys, nops, tag, weights=None):
     ops = []
     ctr = [0]
 
+    SHARED = [{'k': 'n'}, 0, '', 'dflt', {'k': 'b', 'v': False}]   # objects that also serve as defaults
+
     def val():
         ctr[0] += 1
+        if rng.random() < 0.15:
+            return rng.choice(SHARED)      # a stored value may be the very object used as a default
         return '%s%d' % (tag, ctr[0])
+
+    def dflt():
+        return rng.choice(SHARED)
 
     def pairs(n):
         return [[rng.choice(keys), val()] for _ in range(n)]
@@ -80,15 +87,15 @@ def gen_ops(rng, keys, nops, tag, weights=None):
         elif r < 0.40:
             ops.append(['get', k])
         elif r < 0.48:
-            ops.append(['getd', k, rng.choice([{'k': 'n'}, 'dflt'])])
+            ops.append(['getd', k, dflt()])
         elif r < 0.55:
-            ops.append(['setdefault', k, val()])
+            ops.append(['setdefault', k, val() if rng.random() < 0.7 else dflt()])
         elif r < 0.60:
             ops.append(['del', k])
         elif r < 0.64:
             ops.append(['pop', k])
         elif r < 0.67:
-            ops.append(['popd', k, 'dflt'])
+            ops.append(['popd', k, dflt()])
         elif r < 0.70:
             ops.append(['popitem'])
         elif r < 0.715:
